@@ -337,9 +337,16 @@ def seams(name_seed: int, clock_mode: str = "monotone"):
     _uuid.uuid4 = uuid4
     su.time = SeededClock(random.Random(name_seed ^ 0x5EED), clock_mode)
     random.seed(name_seed)
+    # a tuning knob the code may consult: the number of CPUs is a seeded
+    # choice per run (1..4 or 16), so that behaviour which depends on
+    # "more work items than CPUs" is reachable with a handful of items
+    real_cpu_count = os.cpu_count
+    cpus = random.Random(name_seed ^ 0xC9).choice([1, 2, 3, 4, 16])
+    os.cpu_count = lambda: cpus
     try:
         yield sio
     finally:
+        os.cpu_count = real_cpu_count
         _uuid.uuid4 = real_uuid4
         su.time = real_time
         random.setstate(state)
